@@ -109,7 +109,7 @@ def _argmax_unique(row):
     return best
 
 
-POOL2 = [[0.7, 0.2], [0.2, 0.7], [0.1, 0.15], [0.4, 0.35]]
+POOL2 = [[0.7, 0.2], [0.0, 0.85], [0.1, 0.15]]  # incl. a row that gives class 0 a score of exactly 0
 POOL3 = [[0.6, 0.2, 0.1], [0.1, 0.6, 0.2], [0.2, 0.1, 0.6], [0.1, 0.2, 0.15], [0.3, 0.25, 0.2]]
 
 
@@ -281,11 +281,15 @@ def ob_clip_classification(t0: int, t1: int, t2: int, p00: float, p01: float, p1
         scores.append(want)
     if len(ev.clip_evaluations) != N or not _close(ev.score, sum(scores) / N):
         return h.fail("overall score is not the mean of the clip scores")
+    if not h.P("check_order", True):
+        return h.done(any=True, unlabelled=any(y == 2 for y in ys))
     # order of clips does not matter
     ev2 = task(cps[::-1], cas, vocab)
     m2 = _metric_map(ev2.metrics)
     if m2 is None or set(m2) != set(mm) or any(not _close(m2[k], mm[k]) for k in mm) or not _close(ev2.score, ev.score):
         return h.fail("result depends on the order of the clips")
+    if not h.P("check_aoef", True):
+        return h.done(any=True, unlabelled=any(y == 2 for y in ys))
     # survives an AOEF save/load with every metric intact
     loaded = graph.cycle(ev)
     lm = {f.term.label: f.value for f in loaded.metrics}
@@ -399,6 +403,8 @@ def ob_sound_event_classification(e0: int, e1: int, t0: int, t1: int, p00: float
                 return h.fail("match without score")
     if clip_scores and not _close(ev.score, sum(clip_scores) / len(clip_scores)):
         return h.fail("overall score is not the mean of the clip scores")
+    if not h.P("check_aoef", True):
+        return h.done(any=True, empty_clip=(len(set(where)) < 2))
     loaded = graph.cycle(ev)
     lm = {f.term.label: f.value for f in loaded.metrics}
     om = {f.term.label: f.value for f in ev.metrics}
@@ -412,25 +418,34 @@ def plan():
     obs = [Ob("metric-tables", ob_tables, "real", 60, {}, q, twins=("any",))]
     for (N, K, pool) in ((1, 2, False), (1, 3, False), (2, 2, True), (3, 2, True), (2, 3, True), (3, 3, True),
                          (2, 2, False)):
-        quick = pool is False and N == 1 or (N, K, pool) in ((2, 2, True), (2, 3, True))
-        if (N, K, pool) == (2, 2, False):
-            quick = False
+        quick = (N, K, pool) in ((1, 2, False), (2, 2, True), (2, 3, True))
         obs.append(Ob("accuracy-family-N%dK%d%s" % (N, K, "-pool" if pool else ""), ob_accuracy_family, "real", 3000,
                       dict(N=N, K=K, pool=pool), q if quick else ("thorough",),
                       twins=("right", "wrong") + (("mixed",) if N > 1 else ()), twin_timeout=300))
     obs.append(Ob("true-class-probability", ob_true_class_probability, "real", 300, {}, q,
                   twins=("labelled", "none")))
-    for (N, pool) in ((1, False), (2, True), (3, True)):
-        obs.append(Ob("clip-classification-N%d%s" % (N, "-pool" if pool else ""), ob_clip_classification, "real", 3000,
-                      dict(N=N, pool=pool), q if N <= 2 else ("thorough",), twins=("any", "unlabelled"),
-                      twin_timeout=300))
+    # single clip: symbolic scores, AOEF survival; two / three clips: score pool, order independence
+    obs.append(Ob("clip-classification-N1", ob_clip_classification, "real", 1800,
+                  dict(N=1, pool=False, check_order=False, check_aoef=True), q, twins=("any", "unlabelled"),
+                  twin_timeout=300))
+    obs.append(Ob("clip-classification-N2-pool", ob_clip_classification, "real", 3000,
+                  dict(N=2, pool=True, check_order=True, check_aoef=False), q, twins=("any", "unlabelled"),
+                  twin_timeout=300))
+    obs.append(Ob("clip-classification-N3-pool", ob_clip_classification, "real", 9000,
+                  dict(N=3, pool=True, check_order=True, check_aoef=False), ("thorough",), twins=("any",),
+                  twin_timeout=300))
+    obs.append(Ob("clip-classification-N2-pool-aoef", ob_clip_classification, "real", 9000,
+                  dict(N=2, pool=True, check_order=True, check_aoef=True), ("thorough",), twins=("any",),
+                  twin_timeout=300))
     for N in (1, 2):
         obs.append(Ob("multilabel-N%d" % N, ob_multilabel, "real", 1800, dict(N=N), q, twins=("any",),
                       twin_timeout=300))
-    for (NE, pool) in ((1, False), (2, True)):
-        obs.append(Ob("sound-event-classification-NE%d%s" % (NE, "-pool" if pool else ""),
-                      ob_sound_event_classification, "real", 3000, dict(NE=NE, pool=pool), q,
-                      twins=("any", "empty_clip"), twin_timeout=300))
+    obs.append(Ob("sound-event-classification-NE1", ob_sound_event_classification, "real", 1800,
+                  dict(NE=1, pool=False, check_aoef=True), q, twins=("any", "empty_clip"), twin_timeout=300))
+    obs.append(Ob("sound-event-classification-NE2-pool", ob_sound_event_classification, "real", 3000,
+                  dict(NE=2, pool=True, check_aoef=False), q, twins=("any", "empty_clip"), twin_timeout=300))
+    obs.append(Ob("sound-event-classification-NE2-pool-aoef", ob_sound_event_classification, "real", 9000,
+                  dict(NE=2, pool=True, check_aoef=True), ("thorough",), twins=("any",), twin_timeout=300))
     return obs
 
 
